@@ -20,6 +20,7 @@ EXPLANATION = (
     "clamp, operator, blend and colour-difference bodies outside the reviewed list.  NOT decided: overflow to infinity of finite "
     "intermediate values, NaN produced by transcendental functions (powf of a negative base etc.), f32 rounding that makes an algebraically "
     "non-zero divisor zero where no guard exists (the guards that exist are what protects against it, and those are checked)."
+    " Closed world: every file under palette/src is scanned for divisions and partial functions except the categories listed with their reasons (DOM_NOT_SCANNED, NOT_SCANNED)."
 )
 
 ANCHORED = set("""palette/src/convert.rs palette/src/convert/from_into_color_unclamped.rs palette/src/convert/from_into_color.rs
